@@ -147,8 +147,14 @@ Num txs: {"unknown" if self.txs is None else len(self.txs)}
         h256 = hash256(self.serialize())
         # interpret this hash as a little-endian number
         proof = little_endian_to_int(h256)
+        # a compact target with the sign bit set (negative), of value zero or
+        # overflowing 256 bits is never satisfied
+        mantissa = little_endian_to_int(self.bits[:-1])
+        target = self.target()
+        if (mantissa & 0x800000) or target == 0 or target >= 2**256:
+            return False
         # return whether this integer is less than the target
-        return proof < self.target()
+        return proof < target
 
     def validate_merkle_root(self):
         """Gets the merkle root of the tx_hashes and checks that it's
